@@ -263,6 +263,12 @@ type caseT struct {
 	OrigSchedLen int             `json:"orig_sched_len,omitempty"`
 	Tier         string          `json:"tier,omitempty"`
 	Knobs        map[string]int  `json:"knobs,omitempty"`
+	// A failure that depends on what earlier runs left behind in the process is
+	// replayed as a SEQUENCE: runs SeqFrom..Index of the seed range BaseSeed, in
+	// one fresh process; the violation must recur at run Index.
+	Sequence bool   `json:"sequence,omitempty"`
+	SeqFrom  int    `json:"sequence_from,omitempty"`
+	BaseSeed uint64 `json:"base_seed,omitempty"`
 }
 
 type summary struct {
@@ -563,6 +569,7 @@ func matchFinding(fs []finding, property, fingerprint string) *finding {
 func runCheck(sp *spec, tier string) int {
 	start := time.Now()
 	seed := baseSeed()
+	currentBaseSeed = seed
 	if sp.Custom != nil {
 		return sp.Custom(sp, tier, seed)
 	}
@@ -598,10 +605,13 @@ func runCheck(sp *spec, tier string) int {
 	var reported []string
 	groups := map[string]*caseT{}
 	var order []string
+	more := map[string][]*caseT{} // further failing runs with the same fingerprint
 	for _, v := range t.viol {
 		if _, ok := groups[v.Fingerprint]; !ok {
 			groups[v.Fingerprint] = v
 			order = append(order, v.Fingerprint)
+		} else if len(more[v.Fingerprint]) < 12 {
+			more[v.Fingerprint] = append(more[v.Fingerprint], v)
 		}
 	}
 	sort.Strings(order)
@@ -617,6 +627,18 @@ func runCheck(sp *spec, tier string) int {
 		min, err := minimise(sc, sp, tier, v)
 		if err != nil {
 			infra("minimising %q: %v", fp, err)
+		}
+		// A run may fail only because of what EARLIER runs of its worker left
+		// behind in the process; another run of the same group may be
+		// self-contained. Try a few before giving the group up.
+		for _, alt := range more[fp] {
+			if min.Class != "unreproducible" {
+				break
+			}
+			alt.Tier = tier
+			if m2, err := minimise(sc, sp, tier, alt); err == nil && m2.Class != "unreproducible" {
+				v, min = alt, m2
+			}
 		}
 		if min.Class == "unreproducible" {
 			// The run failed inside a worker that had executed other runs before it,
@@ -733,6 +755,9 @@ func minimise(sc *scratch, sp *spec, tier string, v *caseT) (*caseT, error) {
 			a.Msg = "(not minimised: the failure shows only on the first execution in a process, so every replay needs a fresh process — which `./check replay` is)\n" + a.Msg
 			return a, nil
 		}
+		if seq := sequenceCase(sc, sp, tier, v); seq != nil {
+			return seq, nil
+		}
 		return min, nil
 	}
 	rep, err := replayCase(sc, sp, tier, min)
@@ -746,7 +771,64 @@ func minimise(sc *scratch, sp *spec, tier string, v *caseT) (*caseT, error) {
 	return min, nil
 }
 
+// sequenceCase handles a run that fails only after other runs in the same
+// process (the code under test keeps state from one execution to the next):
+// the runs of its worker chunk from some start up to it are re-executed in a
+// fresh process; if the violation recurs at the same run, twice, identically,
+// the shortest such sequence found is the replay.
+func sequenceCase(sc *scratch, sp *spec, tier string, v *caseT) *caseT {
+	chunk := sp.chunk()
+	start := v.Index - v.Index%chunk
+	try := func(from int) *caseT {
+		j := &job{Property: sp.ID, Mode: "gen", Tier: tier, Seed: currentBaseSeed, From: from, To: v.Index + 1, MaxSteps: v.MaxSteps, Knobs: v.Knobs}
+		recs, err := worker(sc, sp, j, fmt.Sprintf("seq-%d-%d", from, v.Index), 20*time.Minute)
+		if err != nil {
+			return nil
+		}
+		for _, r := range recs {
+			if r.Kind == "violation" && r.Case != nil && r.Case.Index == v.Index && r.Case.Fingerprint == v.Fingerprint {
+				return r.Case
+			}
+		}
+		return nil
+	}
+	if v.Index == start || try(start) == nil {
+		return nil
+	}
+	best := start
+	for back := 1; v.Index-back > start; back *= 2 {
+		if try(v.Index-back) != nil {
+			best = v.Index - back
+			break
+		}
+	}
+	a, b := try(best), try(best)
+	if a == nil || b == nil || a.EventHash != b.EventHash {
+		return nil
+	}
+	a.Tier, a.Knobs = tier, v.Knobs
+	a.Sequence, a.SeqFrom, a.BaseSeed = true, best, currentBaseSeed
+	a.OrigPlanLen, a.OrigSchedLen = len(v.Plan), len(v.Sched)
+	a.Msg = fmt.Sprintf("(the run fails only after other runs in the same process: the code under test keeps state across executions. Replay = runs %d..%d of seed range %d in one fresh process; the violation recurs at run %d)\n%s", best, v.Index, currentBaseSeed, v.Index, a.Msg)
+	return a
+}
+
+var currentBaseSeed uint64
+
 func replayCase(sc *scratch, sp *spec, tier string, c *caseT) (*caseT, error) {
+	if c.Sequence {
+		j := &job{Property: sp.ID, Mode: "gen", Tier: tier, Seed: c.BaseSeed, From: c.SeqFrom, To: c.Index + 1, MaxSteps: c.MaxSteps, Knobs: c.Knobs}
+		recs, err := worker(sc, sp, j, fmt.Sprintf("seqreplay-%d-%d", c.SeqFrom, c.Index), 20*time.Minute)
+		if err != nil {
+			return nil, err
+		}
+		for _, r := range recs {
+			if r.Kind == "violation" && r.Case != nil && r.Case.Index == c.Index {
+				return r.Case, nil
+			}
+		}
+		return &caseT{Property: c.Property, EventHash: "(no violation at run " + fmt.Sprint(c.Index) + ")"}, nil
+	}
 	j := &job{Property: sp.ID, Mode: "replay", Tier: tier, MaxSteps: c.MaxSteps, Replay: c, Knobs: c.Knobs}
 	recs, err := worker(sc, sp, j, "replay-"+shortHash(c.Fingerprint+c.EventHash), 10*time.Minute)
 	if err != nil {
